@@ -140,7 +140,7 @@ func serveDiff(args []string) {
 			stats[fmt.Sprintf("status:%d", h.Real[i].Status)]++
 			for k, v := range h.Spec[i] {
 				stats["spec:"+k+"="+v]++
-				if strings.HasPrefix(k, "C") && v != "1" && !(k == "C07" && h.Spec[i]["F09"] == "1") && !(k == "C10" && h.Spec[i]["F18"] == "1") && stats["shown:"+k] < *show {
+				if strings.HasPrefix(k, "C") && v != "1" && !(k == "C07" && h.Spec[i]["F09"] == "1") && stats["shown:"+k] < *show {
 					stats["shown:"+k]++
 					fmt.Printf("SPEC-FAIL %s req %d entry=%s ae=%q prior=%q recover=%v hasRS=%v enc=%v status=%d ce=%q coded=%v esc=%v recov=%d bodylen=%d\n", k, i, h.Reqs[i].Entry, h.Reqs[i].AE, h.Reqs[i].Prior, h.Cfg.Recover, h.Cfg.HasRS, h.Cfg.Enc, h.Real[i].Status, h.Real[i].CE, h.Real[i].Coded, h.Real[i].Escaped != nil, h.Real[i].Recov, len(h.Real[i].Body))
 					for _, e := range h.Real[i].Log {
